@@ -53,6 +53,8 @@ def tasks_c01(tier, seed):
         ts += explore("Q3", CFG_DEFAULT, 1, timeout="60s") + explore("Q3", alt, 2, shards=4, timeout="60s")
         ts += explore("Q6", alt, 2, shards=2, timeout="60s") + explore("Q6", "w1-in4-default-direct", 1, shards=2, timeout="60s")
         ts += explore("Q1", CFG_DEFAULT, 0, shards=1, timeout="60s")
+        # Q5: query requests, expiry and a concurrent callback of the same (non-default) group
+        ts += explore("QEconc", CFG_DEFAULT, 1, shards=8, timeout="100s") + explore("QE1-model", CFG_DEFAULT, 1, shards=2, timeout="100s")
     else:
         for c in cfg_axis():
             ts += explore("Q1s", c, 2, shards=8, timeout="30m")
@@ -61,6 +63,8 @@ def tasks_c01(tier, seed):
         ts += explore("Q1", CFG_DEFAULT, 2, shards=16, timeout="40m")
         ts += explore("Q1s", "w1-in4-default-direct", 3, shards=16, timeout="40m")
         ts += explore("Q2", CFG_DEFAULT, 3, shards=8, timeout="40m")
+        ts += explore("QEconc", CFG_DEFAULT, 2, shards=16, timeout="40m") + explore("QE1-model", CFG_DEFAULT, 2, shards=8, timeout="40m")
+        ts += explore("Q7", CFG_DEFAULT, 2, shards=8, timeout="40m")
     return ts
 
 
